@@ -35,7 +35,9 @@ PROPERTY = "C10"
 DEPTH = {"quick": 3, "thorough": 4}
 
 WORLD = {"tables": {"T": {"cols": [["k", "int"], ["g", "int"], ["x", "int"]],
-                          "rows": [[1, 1, 5], [2, 1, None], [3, 2, 2], [4, 2, 7], [5, None, 1]]}}}
+                          "rows": [[1, 1, 5], [2, 1, None], [3, 2, 2], [4, 2, 7], [5, None, 1]]},
+                    "R": {"cols": [["k", "int"], ["w", "int"]], "rows": [[1, 10], [1, 11], [3, None], [6, 1]]},
+                    "U": {"cols": [["k", "int"], ["g", "int"], ["x", "int"]], "rows": [[7, 1, 5], [1, 1, 5]]}}}
 
 
 def src(n):
@@ -81,6 +83,18 @@ VERBS = [
     ["group_by", [src("k")], True],  # add=True: extends the grouping of the (shared) parent table
     ["mutate", [["o", ["case_ext", P(9), [[["lt", src("x"), ["lit", 2]], ["lit", -1]]], ["lit", 0]]]]],  # extends the open case expression
     ["mutate", [["o2", ["case_ext", P(9), [], ["lit", 7]]], ["o3", P(9)]]],  # closes it differently / uses it as it is
+]
+# verbs whose bookkeeping (name maps, selections, limits, id maps of joins / unions) may be shared with
+# the table they are applied to; offered as the first event and, on the source table, as the second event of an interleaving
+EXTRA = [
+    ["rename", [["k", "x"], ["x", "k"]]],  # name-exchanging
+    ["rename", [["x", "xx"]]],
+    ["select", [src("x"), src("k")]],
+    ["drop", [src("g")]],
+    ["slice_head", 2, 0],
+    ["join", {"src": "R"}, "left", [["eq", src("k"), ["col", "src", "R", "k"]]]],
+    ["union", {"src": "U"}, False],
+    ["collect"],
 ]
 OBS = ["export", "build_query", "str"]
 
@@ -254,7 +268,14 @@ def run_sequence(backend, seq):
 
 
 def diff_where(a, b, path=""):
-    """first path where two fingerprints differ (kept short: it is part of the class)"""
+    """first path where two fingerprints differ (kept short: it is part of the class); column ids
+    differ from process to process and are replaced by a placeholder"""
+    import re
+
+    return re.sub(r"[0-9a-f]{8}-[0-9a-f]{4}-[0-9a-f-]*", "<id>", _diff_where(a, b, path))
+
+
+def _diff_where(a, b, path=""):
     if type(a) is not type(b):
         return path or "root"
     if isinstance(a, list):
@@ -264,12 +285,12 @@ def diff_where(a, b, path=""):
             if x != y:
                 label = x[0] if isinstance(x, list) and x and isinstance(x[0], str) and len(x) == 2 else (a[0] if i and isinstance(a[0], str) else str(i))
                 if isinstance(x, list) and isinstance(y, list):
-                    return diff_where(x, y, f"{path}/{label}"[:80])
+                    return _diff_where(x, y, f"{path}/{label}"[:80])
                 return f"{path}/{label}"[:80]
     if isinstance(a, dict):
         for k in a:
             if a[k] != b.get(k):
-                return diff_where(a[k], b.get(k), f"{path}/{k}")
+                return _diff_where(a[k], b.get(k), f"{path}/{k}")
     return path or "root"
 
 
@@ -302,10 +323,11 @@ def pooled_kind(verb):
     return sub(verb)
 
 
-def enabled(n_tables):
+def enabled(n_tables, pos=0):
     evs = []
     for ti in range(n_tables):
-        for v in VERBS:
+        # extra verbs: as first event, and as second event on the source table (a sibling derivation)
+        for v in VERBS + (EXTRA if pos == 0 or (pos == 1 and ti == 0) else []):
             evs.append(["apply", ti, v])
         for o in OBS:
             evs.append([o, ti])
@@ -319,7 +341,7 @@ def explore(backend, first_idx, depth):
     samples = []
 
     def dfs(seq, n_tables):
-        evs = enabled(n_tables)
+        evs = enabled(n_tables, len(seq))
         for i, ev in enumerate(evs):
             if not seq and i not in first_idx:
                 continue
@@ -418,6 +440,7 @@ def describe(tier):
     return {
         "pooled_expressions": [f"E{i} = {T.py_expr(t)}" for i, t in enumerate(EXPRS)],
         "verbs": [T.py_event(v).replace("pdt.lit", "lit") for v in VERBS],
+        "extra_verbs_first_event_or_second_on_source": [T.py_event(v).replace("pdt.lit", "lit") for v in EXTRA],
         "observations": OBS,
         "events": "apply(<verb with pooled expressions>, T_i) for every pooled table T_i (the result joins the pool) | export(T_i) | build_query(T_i) | str(T_i)",
         "depth": DEPTH[tier],
